@@ -26,9 +26,9 @@ import (
 func init() {
 	Register(&Check{
 		Spec: core.Spec{ID: "C19", Level: "exploration",
-			Rule:        "case = an engine-written multi-block file (all three codecs across cases) x a batch of mutated inputs, each written to disk before it is used. Byte mutations: single/multi bit flips, byte bursts, truncation at every structural boundary +-1, extension, splices from another file, zeroed ranges, each targeted at row data, filter region, file filter section, metadata JSON, CRC, length, version, magic. Framing mutations: the footer JSON re-encoded with a consistent CRC and one or two of {region offset/size, block row-data offset/size, block filter offset/size, file filter section size} set to boundary values (-1, 0, 1, size+-1, 2^31+-1, 2^40, 2^62, int64 extremes) or PRNG values. Per input: ReadFileMetadata, then ReadDataBlockRowData / ReadDataBlockBloomFilters / BlockRowScanner with the metadata it returned (or the original metadata), a query through MemoryMetaStore holding the original metadata over the mutated bytes, and a query through FileSystemDataStore scanning the mutated file. Oracle: no panic or fatal error; TotalAlloc delta per call <= 16 x (file size + original uncompressed sizes) + 8 MiB; with original metadata the result is the exact uncorrupted answer or Err != nil; every returned row is a row that was written, byte for byte. non-trivial = input that at least one call rejected with an error; distinct = distinct mutated contents",
-			Assumptions: []string{"UncompressedSize and Rows are not among the framing fields the property quantifies over and are not mutated", "helpers are called with metadata that ReadFileMetadata returned for the mutated file, or with the original metadata over mutated bytes (a MetaStore that hands out unvalidated row-data extents is outside the property)"},
-			Floors:      map[string]int64{"inputs": 3000, "inputs_rejected": 1500, "framing_inputs": 800, "queries_memmeta": 3000, "queries_fsscan": 500}},
+			Rule:        "case = an engine-written multi-block file (all three codecs across cases) x a batch of mutated inputs, each written to disk before it is used. Byte mutations: single/multi bit flips, byte bursts, truncation at every structural boundary +-1, extension, splices from another file, zeroed ranges, each targeted at row data, filter region, file filter section, metadata JSON, CRC, length, version, magic. Framing mutations: the footer JSON re-encoded with a consistent CRC and one or two of {region offset/size, block row-data offset/size, block filter offset/size, file filter section size, block UncompressedSize, block Rows} set to boundary values (-1, 0, 1, size+-1, 2^31+-1, 2^40, 2^62, int64 extremes) or PRNG values. Deep mutations (every 4th input): the file is taken apart with the independent parser and re-assembled with every checksum (row-data hash, section CRC, metadata CRC) and extent consistent but one part malformed inside: a row stream with an overrunning / short / truncated length prefix, a row that is not a JSON object, a zero-length row, a doubled stream; a block or file-level filter section with unknown flag bits, flags claiming absent filters, an arbitrary filter length, trailing bytes, a bloom header field (m, k, bitset length) at a boundary value, a garbage or cut payload; UncompressedSize or Rows disagreeing with the stream; stored bytes that are not a stream of the declared codec. Per input: ReadFileMetadata, then ReadDataBlockRowData / ReadDataBlockBloomFilters / BlockRowScanner with the metadata it returned (or the original metadata), a query through MemoryMetaStore holding the original metadata over the mutated bytes, and a query through FileSystemDataStore scanning the mutated file. Oracle: no panic or fatal error; TotalAlloc delta per call <= 16 x (file size + original uncompressed sizes) + 8 MiB; with original metadata the result is the exact uncorrupted answer or Err != nil; every returned row is a row that was written, byte for byte (for deep mutations: whenever the mutation left the framed rows byte-identical to written rows). non-trivial = input that at least one call rejected with an error; distinct = distinct mutated contents",
+			Assumptions: []string{"helpers are called with metadata that ReadFileMetadata returned for the mutated file, or with the original metadata over mutated bytes (a MetaStore that hands out unvalidated row-data extents is outside the property)"},
+			Floors:      map[string]int64{"inputs": 3000, "inputs_rejected": 1500, "framing_inputs": 800, "deep_inputs": 800, "queries_memmeta": 3000, "queries_fsscan": 500}},
 		Cases:        func(t string) int { return nQueries(t, 32, 1200) },
 		ChildTimeout: func(t string) time.Duration { return 90 * time.Minute },
 		Run:          runC19,
@@ -162,9 +162,18 @@ func runC19(rc *RunCtx, i int) {
 	mr := r.Split("mut")
 	for k := 0; k < n; k++ {
 		framing := k%4 == 3
+		deep, rowsIntact := false, true
 		var mut []byte
 		var what string
-		if framing {
+		if k%4 == 1 {
+			var ok bool
+			if mut, what, rowsIntact, ok = deepMutation(mr, base); ok {
+				deep = true
+				rc.Res.Count("deep_inputs", 1)
+			}
+		}
+		if deep {
+		} else if framing {
 			mut, what = framingMutation(mr, base)
 			rc.Res.Count("framing_inputs", 1)
 		} else {
@@ -215,7 +224,7 @@ func runC19(rc *RunCtx, i int) {
 		}
 		// 2. helpers with the metadata the parser returned, and with the original metadata
 		for _, m := range []*bs.FileMetadata{md2, base.md} {
-			if m == nil {
+			if m == nil || (deep && m == base.md) {
 				continue
 			}
 			for bi := range m.DataBlocks {
@@ -245,6 +254,11 @@ func runC19(rc *RunCtx, i int) {
 								return
 							}
 							vid := world.VidOfJSON(row)
+							if deep && rowsIntact && blk.HasRowDataHash {
+								if want, ok := base.rows[vid]; ok && want != string(row) {
+									bad = fmt.Sprintf("scanner yielded a row that differs from the written row %s: %s", vid, core.Trunc(string(row), 200))
+								}
+							}
 							if m == base.md && blk.HasRowDataHash {
 								if want, ok := base.rows[vid]; !ok || want != string(row) {
 									bad = fmt.Sprintf("scanner yielded a row that was not written: %s", core.Trunc(string(row), 200))
@@ -261,9 +275,45 @@ func runC19(rc *RunCtx, i int) {
 				}
 			}
 		}
+		// 3a'. a file malformed by construction: a MemoryMetaStore holds the metadata the parser
+		// returned for it (when it returned one)
+		if deep && md2 != nil {
+			ds := stores.NewMemDataStore("deep", true, false)
+			ptr := ds.Put(mut)
+			ms := bs.NewMemoryMetaStore()
+			ms.Update(context.Background(), []bs.WriteOperation{{FileMetadata: md2, FilePointerBytes: ptr}}, nil)
+			de, derr := bs.NewBloomSearchEngine(spec.Config(), ms, ds)
+			if derr == nil {
+				for _, q := range queries {
+					var res *world.QueryResult
+					if !guard("Query (malformed file, parsed metadata in MemoryMetaStore)", func() {
+						ctx, cancel := context.WithTimeout(context.Background(), 60*time.Second)
+						res = world.RunQuery(ctx, de, q)
+						cancel()
+					}) {
+						return
+					}
+					rc.Res.Count("queries_deep_memmeta", 1)
+					if res.Err != nil || res.QErr != nil {
+						rejected = true
+					}
+					if rowsIntact {
+						for _, row := range res.Rows {
+							if _, known := baselineRows[world.VidOfRow(row)]; !known || !rowWritten(row) {
+								rc.Violate(i, "wrong-row-from-query", "", "a query over a malformed (checksum-consistent) file returned a row that was never written: "+core.Trunc(fmt.Sprintf("%v", row), 300), wit(queryJSON(q)))
+								return
+							}
+						}
+					}
+				}
+			}
+		}
 		// 3a. MemoryMetaStore holds the original metadata over the mutated bytes
 		w.Mem.Set(ptrs[0], mut)
 		for qi, q := range queries {
+			if deep {
+				break
+			}
 			var res *world.QueryResult
 			if !guard("Query (original metadata in MemoryMetaStore)", func() {
 				ctx, cancel := context.WithTimeout(context.Background(), 60*time.Second)
@@ -295,7 +345,7 @@ func runC19(rc *RunCtx, i int) {
 		}
 		w.Mem.Set(ptrs[0], base.raw)
 		// 3b. the filesystem store scans the mutated file
-		if k%3 == 0 {
+		if k%3 == 0 || deep {
 			os.WriteFile(filepath.Join(fsDir, "mutant.dat"), mut, 0o600)
 			var res *world.QueryResult
 			if !guard("Query (FileSystemDataStore scan)", func() {
@@ -307,7 +357,7 @@ func runC19(rc *RunCtx, i int) {
 			}
 			rc.Res.Count("queries_fsscan", 1)
 			for _, row := range res.Rows {
-				if !rowWritten(row) {
+				if !rowWritten(row) && rowsIntact {
 					rc.Violate(i, "wrong-row-from-query", "", "a query scanning the corrupted file returned a row that was never written: "+core.Trunc(fmt.Sprintf("%v", row), 300), wit("filesystem scan"))
 					return
 				}
@@ -444,7 +494,13 @@ func framingMutation(r *core.Rand, b *c19Base) ([]byte, string) {
 	}
 	for t := r.Range(1, 2); t > 0; t-- {
 		bi := r.Intn(len(meta.DataBlocks))
-		switch r.Intn(7) {
+		switch r.Intn(9) {
+		case 7:
+			meta.DataBlocks[bi].UncompressedSize = pickVal(meta.DataBlocks[bi].UncompressedSize)
+			desc = append(desc, fmt.Sprintf("block%d.uncompressedSize=%d", bi, meta.DataBlocks[bi].UncompressedSize))
+		case 8:
+			meta.DataBlocks[bi].Rows = pickVal(meta.DataBlocks[bi].Rows)
+			desc = append(desc, fmt.Sprintf("block%d.rows=%d", bi, meta.DataBlocks[bi].Rows))
 		case 0:
 			meta.BlockFilterRegionOffset = pickVal(meta.BlockFilterRegionOffset)
 			desc = append(desc, fmt.Sprintf("regionOffset=%d", meta.BlockFilterRegionOffset))
